@@ -212,10 +212,15 @@ func judgeREST(c *Ctx, srv *server, k restCase) {
 		skew := fU64(f, "skew")
 		code := fStr(f, "code")
 		var want, lib bool
+		// at the two ends of the 64-bit counter range (window reaching below 0 or above 2^64-1) the deciding
+		// oracle is the library's own verdict alone: the property asks for "the library's verdict"
+		edge := false
 		if k.EP == "hotp/validate" {
 			ctr := fU64(f, "counter")
 			if skew <= 10 && ctr <= 1<<64-1-skew {
 				_, want = ref.HOTPWindow(key, ctr, skew, d, a)[code]
+			} else if skew <= 10 {
+				edge = true
 			}
 			lib, _ = otp.ValidateHOTP(secret, code, ctr, &otp.Param{Digits: otp.Digits(d), Algorithm: otp.Algorithm(a), Skew: uint(skew)})
 		} else {
@@ -227,10 +232,16 @@ func judgeREST(c *Ctx, srv *server, k restCase) {
 			step := ref.Step(ts, period)
 			if skew <= 10 && step >= skew {
 				_, want = ref.HOTPWindow(key, step, skew, d, a)[code]
+			} else if skew <= 10 {
+				edge = true
 			}
 			lib, _ = otp.ValidateTOTP(secret, code, time.Unix(ts, 0), &otp.Param{Digits: otp.Digits(d), Algorithm: otp.Algorithm(a), Skew: uint(skew), Period: uint(period)})
 		}
 		got, isBool := out["valid"].(bool)
+		if edge {
+			want = lib
+			c.R.Count("validate_requests_at_counter_range_ends", 1)
+		}
 		if !isBool || got != want || got != lib {
 			v("wrong-verdict", "the validation verdict differs from the library's verdict / the window oracle ("+k.Note+")", fmt.Sprintf("%v (library: %v)", want, lib), fmt.Sprint(out["valid"]))
 		}
@@ -432,6 +443,17 @@ func c18Cases(c *Ctx, n int) []restCase {
 			}
 			f["code"] = ref.HOTP(key, uint64(step), d, a)
 			note := fmt.Sprintf("genuine code at distance %+d, skew %d", dist, skew)
+			if rng.Intn(10) == 0 && skew > 0 {
+				// a timestamp inside the first skew steps of the epoch: the code of a counter at modular distance dist
+				p := period
+				if p == 0 {
+					p = 30
+				}
+				ts = 1 + uint64(rng.Intn(int(skew*p)))
+				f["timestamp"] = ts
+				f["code"] = ref.HOTP(key, ref.Step(int64(ts), period)+uint64(dist), d, a)
+				note = fmt.Sprintf("timestamp in the first %d steps, code of the counter at modular distance %+d", skew, dist)
+			}
 			if rng.Intn(6) == 0 {
 				f["skew"] = uint64(11 + rng.Intn(50))
 				note = "refused skew"
@@ -466,7 +488,20 @@ func c18Cases(c *Ctx, n int) []restCase {
 				x = 0
 			}
 			f["code"] = ref.HOTP(key, x, d, a)
-			add(restCase{EP: "hotp/validate", Method: "POST", F: f, KeyHex: hexs(key), Note: fmt.Sprintf("genuine code at distance %+d, window %d", dist, skew)})
+			note := fmt.Sprintf("genuine code at distance %+d, window %d", dist, skew)
+			if rng.Intn(12) == 0 {
+				// counters within the last / first few values of the 64-bit range, code at modular distance dist
+				if rng.Bool() {
+					ctr = 1<<64 - 1 - uint64(rng.Intn(12))
+				} else {
+					ctr = uint64(rng.Intn(12))
+				}
+				f["counter"] = ctr
+				f["skew"] = skew
+				f["code"] = ref.HOTP(key, ctr+uint64(dist), d, a)
+				note = fmt.Sprintf("counter at the end of the range, code at modular distance %+d, window %d", dist, skew)
+			}
+			add(restCase{EP: "hotp/validate", Method: "POST", F: f, KeyHex: hexs(key), Note: note})
 		case 4, 5: // ocra generate / validate, raw and structured suites
 			delete(f, "digits")
 			delete(f, "algorithm")
